@@ -46,6 +46,18 @@ theorem run_outcome_canonical (c : Cfg) (h : List Act) (s : Nat) :
       (exec c [.new s (nvAfter ⟨7, 7, 1⟩ h), .setSeedV (seedVAfter 2024 h), .run]).xis.getLast? := by
   first | (apply Snow.SeedsLemmas.run_outcome_canonical <;> assumption)
 
+/-- **run_config_current**: a run reads the configuration attached at that moment —
+for EVERY history (in-place edits of the operating conditions, other time step,
+other opcond object, between any runs), the last run of `h ++ [seed = s, run]` has
+the generator schedule, the vial deviates AND the configuration of a fresh object
+built with the current configuration, seed `s` and the current vial seed. -/
+theorem run_config_current (c : Cfg) (h : List Act) (s : Nat) :
+    let fresh := exec c [.new s (nvAfter ⟨7, 7, 1⟩ h), .setSeedV (seedVAfter 2024 h), .editCfg (cfgAfter 0 h), .run]
+    (exec c (h ++ [.setSeed s, .run])).scheds.getLast? = fresh.scheds.getLast? ∧
+    (exec c (h ++ [.setSeed s, .run])).xis.getLast? = fresh.xis.getLast? ∧
+    (exec c (h ++ [.setSeed s, .run])).cfgs.getLast? = fresh.cfgs.getLast? := by
+  first | (apply Snow.SeedsLemmas.run_config_current <;> assumption)
+
 /-- … and a plain re-run (no re-seeding) when the object's seed already is `s`. -/
 theorem run_schedule_canonical_same_seed (c : Cfg) (h : List Act) (s : Nat)
     (hs : seedAfter 2021 h = s) :
